@@ -256,6 +256,22 @@ Definition nl_str2int (base : Z) (s : list Z) : option Z :=
   end.
 Definition nl_str2int10 (s : list Z) : option Z := nl_str2int 10 s.
 
+(* the numerals str2int is to accept, and their value (the obligation of C14_str2int_sound): blanks, an optional sign,
+   with base detection an optional 0x / 0X (base 16) or 0b / 0B (base 2) prefix, AT LEAST ONE digit of the base,
+   blanks; the value is the digits' value modulo 2^64, negated for '-', read as a signed 64-bit integer *)
+Definition digit_val (c : Z) : Z := match digit_of c with Some x => x | None => 0 end.
+Definition valid_digit (b c : Z) : Prop := exists x, digit_of c = Some x /\ x < b.
+Definition numeral_shape (base : Z) (s : list Z) (v : Z) : Prop :=
+  exists sp1 sgn pre ds sp2 b,
+    s = sp1 ++ sgn ++ pre ++ ds ++ sp2 /\
+    Forall (fun c => isspace c = true) sp1 /\ Forall (fun c => isspace c = true) sp2 /\
+    (sgn = [] \/ sgn = [45] \/ sgn = [43]) /\
+    ((pre = [] /\ b = (if base =? 0 then 10 else base)) \/
+     (base = 0 /\ exists x, pre = [48; x] /\ ((x = 120 \/ x = 88) /\ b = 16 \/ (x = 98 \/ x = 66) /\ b = 2))) /\
+    2 <= b <= 36 /\ ds <> [] /\ Forall (valid_digit b) ds /\
+    let n := u64 (digits_value b 0 (map digit_val ds)) in
+    v = wrap64 (if match sgn with [45] => true | _ => false end then u64 (- n) else n).
+
 (* ================================================================================================
    the ".0" rules (texts as lists of character codes)
    ================================================================================================ *)
